@@ -28,6 +28,11 @@ def _imports():
     return be, bd, ce, cd, de, dd, error, bridge
 
 
+def always_value(t):
+    """a record type with declared members none of which is mandatory: its freshly instantiated placeholder is a value"""
+    return t['k'] in ('SEQUENCE', 'SET') and t['fields'] and all(m != 'req' for n, ft, m in t['fields'])
+
+
 def features(T, v=None):
     """structural features of a type / value (used to key known findings narrowly)."""
     f = set()
@@ -36,9 +41,15 @@ def features(T, v=None):
         k = t['k']
         if k in ('SEQUENCE', 'SET') and isinstance(x, dict):
             for n, ft, mode in t['fields']:
+                if n not in x and mode == 'opt' and always_value(ft):
+                    f.add('absent-optional-record-without-mandatory-members')
                 if n in x:
-                    if mode == 'opt' and ft['k'] in ('SEQUENCEOF', 'SETOF') and x[n] == []:
-                        f.add('empty-optional-of')
+                    if mode == 'opt' and ft['k'] in ('SEQUENCEOF', 'SETOF', 'SEQUENCE', 'SET', 'CHOICE'):
+                        try:
+                            if x690.enc(ft, x[n], 'DER', ('omit-empty-optional-of',), ine=True) == b'':
+                                f.add('empty-optional-of')      # present OPTIONAL member with empty constructed content
+                        except Exception:
+                            pass
                     walkv(ft, x[n])
         elif k in ('SEQUENCEOF', 'SETOF') and isinstance(x, list):
             for i in x:
